@@ -290,7 +290,8 @@ func runC08(r *Run) {
 	dir := scratchDir("bt-c08-")
 	r.Defer(func() { os.RemoveAll(dir) })
 	model := newBTModel() // acknowledged state
-	gen := makeC14Gen(r)
+	mix := cfg.Intn(len(c14Mixes))
+	gen := makeC14GenMix(r, mix)
 	ps0 := r.T.S("prog.0")
 	ps1 := r.T.S("prog.1")
 	issued := 0
@@ -546,7 +547,7 @@ func runC08(r *Run) {
 	if tornN > 0 {
 		r.Fault("torn_write_split")
 	}
-	r.Sample = map[string]interface{}{"ops": nOps, "two_clients": twoClients, "cycles": cycles, "crashes": crashInfo, "final_state": modelString(model)}
+	r.Sample = map[string]interface{}{"ops": nOps, "two_clients": twoClients, "mix": mix, "cycles": cycles, "crashes": crashInfo, "final_state": modelString(model)}
 }
 
 func closeQuietly(w *BTWorld) {
